@@ -12,6 +12,7 @@ import (
 
 	"verif/internal/evid"
 	"verif/props/c01"
+	"verif/props/c05"
 	"verif/props/c06"
 	"verif/props/c11"
 	"verif/props/c12"
@@ -26,6 +27,7 @@ type prop struct {
 
 var props = map[string]prop{
 	"C01": {"exploration", c01.Run, c01.Replay},
+	"C05": {"fault_enumeration", c05.Run, c05.Replay},
 	"C06": {"model_checking", c06.Run, c06.Replay},
 	"C11": {"exploration", c11.Run, c11.Replay},
 	"C12": {"exploration", c12.Run, c12.Replay},
@@ -63,8 +65,8 @@ func main() {
 		fmt.Fprintln(os.Stderr, "unknown property", id)
 		os.Exit(2)
 	}
-	debug.SetGCPercent(800)
-	ballast = make([]byte, 1<<30) // never touched: only raises the GC trigger so tiny-heap enumerations do not collect continuously
+	debug.SetGCPercent(400)
+	ballast = make([]byte, 64<<20) // never touched: only raises the GC trigger so tiny-heap enumerations do not collect continuously
 	r := evid.New(id, tier, p.level)
 	if replay != "" {
 		raw, err := evid.LoadReplay(replay)
